@@ -335,3 +335,32 @@ def reset(c):
         c.ensure("zeroed", r.M1(k) == 0)
     else:
         c.ensure("view_preserved", r.M1(k) == r.M0(k))
+
+
+ASSUMPTIONS = [
+    "owner of the record is an inferno.Module whose attribute protocol is the real Module.__getattr__/__setattr__ (interpreted), on top of the modelled nn.Module attribute store",
+    "element positions are independent: all operations used by RecordTensor act identically at every element position (time-axis slicing/cat/roll/gather/scatter on dim 0, element-wise casts)",
+    "type conversion obs.to(dtype) is the standard value conversion (float->int truncation, x->bool as x != 0, bool->{0,1}); torch's promotion table itself is exercised only by the bounded dtype matrix",
+    "observations are non-empty tensors (numel > 0)",
+]
+
+_F = INF
+MUTANTS = [
+    dict(file=_F, func="_unwind_ptr", old="(pointer - int(offset)) % size", new="(pointer + int(offset)) % size", contracts=["RecordTensor.read", "RecordTensor.write"]),
+    dict(file=_F, func="_unwind_ptr", old="(pointer - int(offset)) % size", new="(pointer - int(offset))", contracts=["RecordTensor.read"]),
+    dict(file=_F, func="RecordTensor.read", old="offset: int = 1", new="offset: int = 0"),
+    dict(file=_F, func="RecordTensor.write", old="data[slice(index + 1, None), ...]", new="data[slice(index, None), ...]"),
+    dict(file=_F, func="RecordTensor.readrange", old="if start >= end:", new="if start > end:", name="D1 regression: readrange start > end"),
+    dict(file=_F, func="RecordTensor.readrange", old="if start >= end:", new="if start <= end:"),
+    dict(file=_F, func="RecordTensor.readrange", old="end = _unwind_ptr(ptr, offset - length, recordsz)", new="end = _unwind_ptr(ptr, offset - length + 1, recordsz)"),
+    dict(file=_F, func="RecordTensor.readrange", old="offset.unsqueeze(-1)\n                - torch.arange", new="offset.unsqueeze(-1)\n                + torch.arange"),
+    dict(file=_F, func="RecordTensor.writerange", old="elif ptr + length > recordsz:", new="elif ptr + length >= recordsz:", expect="survives", name="control: wrapped branch also correct when the range ends exactly at the end of storage"),
+    dict(file=_F, func="RecordTensor.writerange", old="obs[slice(recordsz - ptr, None), ...].to(dtype=data.dtype),\n", new="obs[slice(recordsz - ptr - 1, None), ...].to(dtype=data.dtype),\n"),
+    dict(file=_F, func="RecordTensor.writerange", old="data[slice(ptr + length, None), ...]", new="data[slice(ptr + length + 1, None), ...]"),
+    dict(file=_F, func="RecordTensor.push", old="self.write(obs, offset=0, inplace=inplace)\n        self.incr(1)", new="self.incr(1)\n        self.write(obs, offset=0, inplace=inplace)"),
+    dict(file=_F, func="RecordTensor.push", old="dtype=(obs.dtype if self.__data is None else None),", new="dtype=None,", name="D2 regression: push does not adopt dtype"),
+    dict(file=_F, func="RecordTensor.align", old="data.roll(index - self.__pointer, 0)", new="data.roll(self.__pointer - index, 0)"),
+    dict(file=_F, func="RecordTensor.reset", old="            self.__pointer = 0\n", new="            pass\n"),
+    dict(file=_F, func="RecordTensor.incr", old="_unwind_ptr(self.__pointer, -pos, self.__recordsz)", new="_unwind_ptr(self.__pointer, pos, self.__recordsz)"),
+    dict(file=_F, func="RecordTensor.pop", old="self.decr(1)\n            return self.read(0)", new="self.decr(1)\n            return self.read(1)"),
+]
